@@ -361,7 +361,14 @@ def rule_money(ctx: Ctx, rep: Report) -> None:
     rep.ob(rule, "TxOut.assert_valid", bool(ctx.calls_to(to, "valid_sats_amount", last=True)), to.where(), "an output's value is a valid satoshi amount")
 
 
+def rule_params_forwarded_(ctx: Ctx, rep: Report) -> None:
+    """C18.params_forwarded: a parameter is handed on to callees that have a parameter of the same name (see sigcommon.rule_params_forwarded)."""
+    from rules.sigcommon import rule_params_forwarded
+    rule_params_forwarded(ctx, rep, "C18.params_forwarded", ('btclib.fee', 'btclib.amount', 'btclib.psbt.psbt_size'), 15)
+
+
 RULES = [
+    ("C18.params_forwarded", rule_params_forwarded_),
     ("C18.size_vs_serialize", rule_size_vs_serialize),
     ("C18.weight", rule_weight),
     ("C18.fee", rule_fee),
